@@ -2,7 +2,7 @@
    comparison) to OCaml.  The tree / arena names are only there because the shared runner glue (conv.ml,
    common.ml) refers to them. *)
 From Coq Require Import Extraction ExtrOcamlBasic ExtrOcamlString.
-From AT Require Import Num Vec Aff Farkas FM Equiv PTree Cells Abs Poly AffOps PolyCtor PolySimplex PolyInc.
+From AT Require Import Num Vec Aff Farkas FM Equiv PTree Cells Abs Poly AffOps PolyCtor PolySimplex PolyInc AffOps2.
 Extraction Blacklist List String Int.
 Extraction "model_c14.ml"
   qc_of_float qz qfrac qleb qltb qeqb qabs Qcplus Qcmult Qcopp Qcminus Qcdiv
@@ -19,4 +19,5 @@ Extraction "model_c14.ml"
   p_simplex simplex_vertices qn p_cross_polytope sum_abs
   p_translate p_intersection p_intersection_n p_apply_pre p_apply_post p_rotate transpose
   p_distance_raw p_contains p_distance p_distance_old tol8 qsign
-  poly_incl poly_equiv.
+  poly_incl poly_equiv
+  p_distances_raw.
